@@ -82,6 +82,16 @@ CLAIMS = {
   technique="runtime monitoring: encode-decode-query round trip against a reference model, plus crash/hang/allocation monitor over a fault-injection campaign on file contents",
   category="fault_enumeration",
   ref="DESIGN.md §2 C15"),
+ "C16": dict(
+  text="Held on the executions observed: eight layout variants per generated AST (whitespace runs of blank/tab/CR/LF/CRLF around = , | : < >, continuation colons, comments on own lines / trailing / with and without bars and look-alike parameters, modifiers prefix/infix/suffix and =true, subscript digits, </> sugar, empty steps) instantiate in Minimal and Plain to operators with the canonical text's behaviour (bit-identical both directions), step lists and per-step parameters (names, flags, naturals, integers, reals by bits, series, texts), for single steps and pipelines; normalize is idempotent; a registered user operator with every parameter kind reads back exactly what was written in 40 real / 22 integer spellings (decimal, exponent, sexagesimal with hemisphere letters, overflow, multi-byte, empty) or is rejected with BadParam/MissingParam naming the first offending parameter, defaults, last-of-repeated and ignored unknown keys included; every built-in numeric or flag parameter rejects an ill-typed value with BadParam naming it.",
+  note="Well-formed means: steps start with a name; a value does not start or end with a separator (an empty value or a trailing comma/colon swallows the following word, which the generator therefore does not produce except at the end).",
+  technique="runtime monitoring: two-route agreement over layout variants of one AST, plus executable model of the typing rules read back through the introspection API",
+  ref="DESIGN.md §2 C16"),
+ "C17": dict(
+  text="Held on the executions observed: PROJ texts rendered from an AST (single steps and pipelines of 1-5 steps over utm, tmerc, merc, lcc, laea, cart, helmert, axisswap, unitconvert, noop, addone; + prefixes or not, any token order, blank/tab/LF/CRLF layout, comments, step and pipeline inv, omit_fwd/omit_inv, pipeline globals including a+rf, a+rf and k in steps) instantiate in Plain to the same operation as the reference Geodesy text written from the same AST without parsing: bit-identical results and counts both directions and equal step lists; the translation is idempotent; text without PROJ syntax is returned byte-identical, Geodesy text that merely mentions 'proj' keeps its behaviour (also as a pipeline step), init clauses and nested pipelines are refused with Error::Unsupported.",
+  note="The reference translation implements the rules of the property statement (order kept, globals before locals, pipeline inv = reverse + toggle inv + exchange omit flags, a,rf -> ellps, k -> k_0).",
+  technique="runtime monitoring: executable reference translation from a shared AST, differential against the library's translation at the behavioural level",
+  ref="DESIGN.md §2 C17"),
  "C19": dict(
   text="Held on the executions observed: write/read round trips, bulk accessors, set_xy/xyz/xyzt, stomp for 15 container kinds plus a user container on the trait defaults (missing dimensions read 0 / NaN or the adapter's fixed values, Coor32 through f32); nth/set_nth out of range give NaN without crashing; typed, angular and bulk accessors, update, fill, new, scale, dot, hypot2/3 and + - * / agree with element-wise definitions on hostile values; ISO-6709 DDDMM.mmm / DDDMMSS.sss encodings, dms_to_dd, dm_to_dd, parse_sexagesimal, normalisation and the dm/dms operators agree with the formulas, on a lattice of [-720, 720] degrees (0.05 deg quick, 1 arc-second thorough) and at random with carries, |angle| < 1 degree and zero-degree components.",
   note="Reference definitions are evaluated in the harness in plain f64; 1e-10 degrees for angle conversions.",
